@@ -79,7 +79,7 @@ fn gen_text() -> String {
         1 => (0..t::range(0, 6)).map(|_| t::pick(ALPHA)).collect::<Vec<_>>().join(""),
         2 => {
             // (a one-line message of n bytes makes a chunk of n + 8 bytes: 8, 248, 4088 hit the powers of sixteen)
-            let n = t::pick(&[0usize, 1, 7, 8, 9, 15, 16, 17, 247, 248, 249, 255, 256, 4087, 4088, 4089, 4095, 5000]);
+            let n = t::pick(&[0usize, 1, 7, 8, 9, 15, 16, 17, 247, 248, 249, 255, 256, 4087, 4088, 4089, 4095, 5000, 8184, 16375, 16376, 16377, 16384, 32760, 65528]);
             "m".repeat(n)
         }
         _ => String::new(),
